@@ -1248,12 +1248,6 @@ pub fn cmd_string_map(_interp: &mut Interp, _: ContextID, argv: &[Value]) -> Mol
         .filter(|(_, count, _)| *count > 0)
         .collect::<Vec<_>>();
 
-    let string_lower: Option<String> = if nocase {
-        Some(string.to_lowercase())
-    } else {
-        None
-    };
-
     let mut result = String::new();
     let mut skip = 0;
 
@@ -1266,12 +1260,16 @@ pub fn cmd_string_map(_interp: &mut Interp, _: ContextID, argv: &[Value]) -> Mol
         let mut matched = false;
 
         for (from, from_char_count, to) in &filtered_keys {
-            let haystack: &str = match &string_lower {
-                Some(x) => &x[i..],
-                None => &string[i..],
+            // Lower-casing can change the byte length of a character, so byte offsets
+            // into a lower-cased copy of the whole string do not line up with `i`:
+            // lower-case the remaining input instead.
+            let haystack: std::borrow::Cow<str> = if nocase {
+                std::borrow::Cow::Owned(string[i..].to_lowercase())
+            } else {
+                std::borrow::Cow::Borrowed(&string[i..])
             };
 
-            if haystack.starts_with(&from.as_str()) {
+            if haystack.starts_with(from.as_str()) {
                 matched = true;
 
                 result.push_str(to.as_str());
